@@ -225,3 +225,566 @@ Proof.
   rewrite IH; auto.
   rewrite Forall_forall in Hall. apply (Hall (h, s) E).
 Qed.
+
+(* ================= Part 4: assoc_path / delete_in / update_in / assoc_in ================= *)
+
+Section Ops.
+Context {A : Type}.
+Notation tree := (tree A).
+
+Lemma assoc_path_single (c : list (key * tree)) h v : assoc_path (Nd c) [h] v = Ok (Nd (aset h v c)).
+Proof. reflexivity. Qed.
+
+Lemma assoc_path_cons (c : list (key * tree)) h r v : r <> [] ->
+  assoc_path (Nd c) (h :: r) v = rbind (assoc_path (adefault h c) r v) (fun s' => Ok (Nd (aset h s' c))).
+Proof. destruct r; [congruence|reflexivity]. Qed.
+
+Lemma assoc_path_Lf (a : A) p v : p <> [] -> assoc_path (Lf a) p v = Err ETypeThroughLeaf.
+Proof. destruct p as [|h [|h' r]]; [congruence|reflexivity|reflexivity]. Qed.
+
+Lemma delete_in_cons (c : list (key * tree)) h r : r <> [] ->
+  delete_in (Nd c) (h :: r) =
+  match alookup h c with
+  | Some s => rbind (delete_in s r) (fun s' => Ok (Nd (aset h s' c)))
+  | None => Ok (Nd c)
+  end.
+Proof. destruct r; [congruence|reflexivity]. Qed.
+
+Lemma delete_in_Lf (a : A) p : p <> [] -> delete_in (Lf a) p = Err ETypeThroughLeaf.
+Proof. destruct p as [|h [|h' r]]; [congruence|reflexivity|reflexivity]. Qed.
+
+Lemma get_in_nil_dict (p : list key) : p <> [] -> get_in (@Nd A []) p = Ok None.
+Proof. destruct p; [congruence|reflexivity]. Qed.
+
+Lemma get_in_adefault (c : list (key * tree)) h r : r <> [] ->
+  get_in (Nd c) (h :: r) = get_in (adefault h c) r.
+Proof.
+  intros Hr. cbn. unfold adefault. destruct (alookup h c) as [s|]; auto.
+  now rewrite get_in_nil_dict.
+Qed.
+
+Lemma app_cons_not_nil' {X} (c : list X) x p : c ++ x :: p <> [].
+Proof. destruct c; discriminate. Qed.
+
+Lemma aset_same (c : list (key * tree)) h s : alookup h c = Some s -> aset h s c = c.
+Proof.
+  induction c as [|[k v] r IH]; cbn; [discriminate|].
+  destruct (N.eqb k h) eqn:E.
+  - intros [= ->]. reflexivity.
+  - intros H. f_equal. auto.
+Qed.
+
+Theorem get_assoc (d d' : tree) p v : p <> [] -> assoc_path d p v = Ok d' -> get_in d' p = Ok (Some v).
+Proof.
+  revert d d'. induction p as [|h r IH]; intros d d' Hne Ha; [congruence|].
+  destruct d as [a|c]; [rewrite assoc_path_Lf in Ha by exact Hne; discriminate|].
+  destruct r as [|h2 r].
+  - rewrite assoc_path_single in Ha. injection Ha as <-. cbn. now rewrite alookup_aset_eq.
+  - rewrite assoc_path_cons in Ha by discriminate.
+    destruct (assoc_path (adefault h c) (h2 :: r) v) as [s'|e] eqn:E; [|discriminate].
+    cbn [rbind] in Ha. injection Ha as <-.
+    change (get_in (Nd (aset h s' c)) (h :: h2 :: r))
+      with (match alookup h (aset h s' c) with Some s => get_in s (h2 :: r) | None => Ok None end).
+    rewrite alookup_aset_eq. eapply IH; [discriminate|exact E].
+Qed.
+
+(* generic frame step: replacing the value under h leaves y <> h alone *)
+Lemma get_in_aset_neq (c : list (key * tree)) h s y q : h <> y ->
+  get_in (Nd (aset h s c)) (y :: q) = get_in (Nd c) (y :: q).
+Proof. intros Hne. cbn. now rewrite alookup_aset_neq. Qed.
+
+Lemma get_in_aset_eq (c : list (key * tree)) h s q :
+  get_in (Nd (aset h s c)) (h :: q) = get_in s q.
+Proof. cbn. now rewrite alookup_aset_eq. Qed.
+
+Theorem assoc_frame (d d' : tree) p q v :
+  assoc_path d p v = Ok d' -> diverge p q -> get_in d' q = get_in d q.
+Proof.
+  intros Ha (c & x & y & p' & q' & -> & -> & Hxy).
+  revert d d' Ha. induction c as [|h c IH]; intros d d' Ha.
+  - cbn [app] in *. destruct d as [a|c0]; [rewrite assoc_path_Lf in Ha by discriminate; discriminate|].
+    destruct p' as [|h2 r].
+    + rewrite assoc_path_single in Ha. injection Ha as <-. now apply get_in_aset_neq.
+    + rewrite assoc_path_cons in Ha by discriminate.
+      destruct (assoc_path (adefault x c0) (h2 :: r) v) as [s'|e]; [|discriminate].
+      injection Ha as <-. now apply get_in_aset_neq.
+  - cbn [app] in *. destruct d as [a|c0]; [rewrite assoc_path_Lf in Ha by discriminate; discriminate|].
+    rewrite assoc_path_cons in Ha by apply app_cons_not_nil'.
+    destruct (assoc_path (adefault h c0) (c ++ x :: p') v) as [s'|e] eqn:E; [|discriminate].
+    injection Ha as <-. rewrite get_in_aset_eq, get_in_adefault by apply app_cons_not_nil'.
+    eapply IH. exact E.
+Qed.
+
+Theorem delete_removes (d d' : tree) p : wf d -> p <> [] -> delete_in d p = Ok d' -> get_in d' p = Ok None.
+Proof.
+  revert d d'. induction p as [|h r IH]; intros d d' Hwf Hne Hd; [congruence|].
+  destruct d as [a|c]; [rewrite delete_in_Lf in Hd by exact Hne; discriminate|].
+  inversion Hwf as [|c' Hnd Hall]; subst.
+  destruct r as [|h2 r].
+  - cbn in Hd. injection Hd as <-. cbn. now rewrite alookup_aremove_eq.
+  - rewrite delete_in_cons in Hd by discriminate.
+    destruct (alookup h c) as [s|] eqn:El.
+    + destruct (delete_in s (h2 :: r)) as [s'|e] eqn:E; [|discriminate].
+      injection Hd as <-. rewrite get_in_aset_eq. eapply IH; [|discriminate|exact E].
+      rewrite Forall_forall in Hall. apply (Hall (h, s)). now apply alookup_In.
+    + injection Hd as <-.
+      change (get_in (Nd c) (h :: h2 :: r))
+        with (match alookup h c with Some s => get_in s (h2 :: r) | None => Ok None end).
+      now rewrite El.
+Qed.
+
+Lemma get_in_aremove_neq (c : list (key * tree)) h y q : h <> y ->
+  get_in (Nd (aremove h c)) (y :: q) = get_in (Nd c) (y :: q).
+Proof. intros Hne. cbn. now rewrite alookup_aremove_neq. Qed.
+
+Theorem delete_frame (d d' : tree) p q :
+  delete_in d p = Ok d' -> diverge p q -> get_in d' q = get_in d q.
+Proof.
+  intros Hd (c & x & y & p' & q' & -> & -> & Hxy).
+  revert d d' Hd. induction c as [|h c IH]; intros d d' Hd.
+  - cbn [app] in *. destruct d as [a|c0]; [rewrite delete_in_Lf in Hd by discriminate; discriminate|].
+    destruct p' as [|h2 r].
+    + cbn in Hd. injection Hd as <-. now apply get_in_aremove_neq.
+    + rewrite delete_in_cons in Hd by discriminate.
+      destruct (alookup x c0) as [s|]; [|now injection Hd as <-].
+      destruct (delete_in s (h2 :: r)) as [s'|e]; [|discriminate].
+      injection Hd as <-. now apply get_in_aset_neq.
+  - cbn [app] in *. destruct d as [a|c0]; [rewrite delete_in_Lf in Hd by discriminate; discriminate|].
+    rewrite delete_in_cons in Hd by apply app_cons_not_nil'.
+    destruct (alookup h c0) as [s|] eqn:El; [|now injection Hd as <-].
+    destruct (delete_in s (c ++ x :: p')) as [s'|e] eqn:E; [|discriminate].
+    injection Hd as <-. rewrite get_in_aset_eq. cbn [get_in]. rewrite El.
+    eapply IH. exact E.
+Qed.
+
+Theorem delete_missing_noop (d : tree) p : get_in d p = Ok None -> delete_in d p = Ok d.
+Proof.
+  revert d. induction p as [|h r IH]; intros d Hg; [discriminate|].
+  destruct d as [a|c]; [discriminate|]. cbn in Hg.
+  destruct r as [|h2 r].
+  - cbn. destruct (alookup h c) as [s|] eqn:El; [discriminate|]. now rewrite aremove_notin.
+  - rewrite delete_in_cons by discriminate.
+    destruct (alookup h c) as [s|] eqn:El; auto.
+    rewrite (IH s Hg). cbn. now rewrite aset_same.
+Qed.
+
+Lemma update_in_cons (c : list (key * tree)) h r f :
+  update_in (Nd c) (h :: r) f = rbind (update_in (adefault h c) r f) (fun s' => Ok (Nd (aset h s' c))).
+Proof. reflexivity. Qed.
+
+Lemma assoc_in_cons (c : list (key * tree)) h r v :
+  assoc_in (Nd c) (h :: r) v = rbind (assoc_in (adefault h c) r v) (fun s' => Ok (Nd (aset h s' c))).
+Proof. reflexivity. Qed.
+
+Definition got (r : res (option tree)) : tree :=
+  match r with Ok (Some s) => s | _ => Nd [] end.
+
+Lemma got_adefault (c : list (key * tree)) h r :
+  got (get_in (Nd c) (h :: r)) = got (get_in (adefault h c) r).
+Proof.
+  cbn. unfold adefault. destruct (alookup h c) as [s|]; auto.
+  destruct r; reflexivity.
+Qed.
+
+Theorem update_in_get (d d' : tree) p f : update_in d p f = Ok d' ->
+  get_in d' p = Ok (Some (f (match get_in d p with Ok (Some s) => s | _ => Nd [] end))).
+Proof.
+  change (update_in d p f = Ok d' -> get_in d' p = Ok (Some (f (got (get_in d p))))).
+  revert d d'. induction p as [|h r IH]; intros d d' Hu.
+  - cbn in *. now injection Hu as <-.
+  - destruct d as [a|c]; [discriminate|]. rewrite update_in_cons in Hu.
+    destruct (update_in (adefault h c) r f) as [s'|e] eqn:E; [|discriminate].
+    injection Hu as <-. rewrite get_in_aset_eq, got_adefault. now apply IH.
+Qed.
+
+Lemma get_in_adefault' (c : list (key * tree)) h r : r <> [] ->
+  get_in (adefault h c) r = get_in (Nd c) (h :: r).
+Proof. intros Hr. symmetry. now apply get_in_adefault. Qed.
+
+Theorem update_in_frame (d d' : tree) p q f :
+  update_in d p f = Ok d' -> diverge p q -> get_in d' q = get_in d q.
+Proof.
+  intros Hu (c & x & y & p' & q' & -> & -> & Hxy).
+  revert d d' Hu. induction c as [|h c IH]; intros d d' Hu; cbn [app] in *;
+    (destruct d as [a|c0]; [discriminate|]); rewrite update_in_cons in Hu.
+  - destruct (update_in (adefault x c0) p' f) as [s'|e]; [|discriminate].
+    injection Hu as <-. now apply get_in_aset_neq.
+  - destruct (update_in (adefault h c0) (c ++ x :: p') f) as [s'|e] eqn:E; [|discriminate].
+    injection Hu as <-. rewrite get_in_aset_eq, get_in_adefault by apply app_cons_not_nil'.
+    eapply IH. exact E.
+Qed.
+
+Theorem assoc_in_get (d d' : tree) p v : assoc_in d p v = Ok d' -> get_in d' p = Ok (Some v).
+Proof.
+  revert d d'. induction p as [|h r IH]; intros d d' Ha.
+  - cbn in *. now injection Ha as <-.
+  - destruct d as [a|c]; [discriminate|]. rewrite assoc_in_cons in Ha.
+    destruct (assoc_in (adefault h c) r v) as [s'|e] eqn:E; [|discriminate].
+    injection Ha as <-. rewrite get_in_aset_eq. eapply IH. exact E.
+Qed.
+
+Theorem assoc_in_frame (d d' : tree) p q v :
+  assoc_in d p v = Ok d' -> diverge p q -> get_in d' q = get_in d q.
+Proof.
+  intros Ha (c & x & y & p' & q' & -> & -> & Hxy).
+  revert d d' Ha. induction c as [|h c IH]; intros d d' Ha; cbn [app] in *;
+    (destruct d as [a|c0]; [discriminate|]); rewrite assoc_in_cons in Ha.
+  - destruct (assoc_in (adefault x c0) p' v) as [s'|e]; [|discriminate].
+    injection Ha as <-. now apply get_in_aset_neq.
+  - destruct (assoc_in (adefault h c0) (c ++ x :: p') v) as [s'|e] eqn:E; [|discriminate].
+    injection Ha as <-. rewrite get_in_aset_eq, get_in_adefault by apply app_cons_not_nil'.
+    eapply IH. exact E.
+Qed.
+
+End Ops.
+
+(* ================= Part 5: dict_to_paths / establish ================= *)
+
+Section Paths.
+Context {A : Type}.
+Notation tree := (tree A).
+
+Lemma dtp_Nd_nil (root : list key) : dict_to_paths root (@Nd A []) = [].
+Proof. reflexivity. Qed.
+
+Lemma dtp_Nd_cons (root : list key) k (v : tree) r :
+  dict_to_paths root (Nd ((k, v) :: r)) = dict_to_paths (root ++ [k]) v ++ dict_to_paths root (Nd r).
+Proof. reflexivity. Qed.
+
+Lemma In_dtp_Nd (root : list key) (c : list (key * tree)) pa :
+  In pa (dict_to_paths root (Nd c)) <->
+  exists k v, In (k, v) c /\ In pa (dict_to_paths (root ++ [k]) v).
+Proof.
+  induction c as [|[k v] r IH].
+  - rewrite dtp_Nd_nil. split; [intros []|intros (k & v & [] & _)].
+  - rewrite dtp_Nd_cons, in_app_iff, IH. split.
+    + intros [H|(k' & v' & Hin & H)].
+      * exists k, v. split; [now left|exact H].
+      * exists k', v'. split; [now right|exact H].
+    + intros (k' & v' & [Heq|Hin] & H).
+      * injection Heq as <- <-. now left.
+      * right. exists k', v'. auto.
+Qed.
+
+Lemma dtp_prefix (d : tree) : forall root pa, In pa (dict_to_paths root d) -> exists p, fst pa = root ++ p.
+Proof.
+  induction d as [b|c IHc] using tree_ind'; intros root pa Hin.
+  - cbn in Hin. destruct Hin as [<-|[]]. exists []. cbn. now rewrite app_nil_r.
+  - apply In_dtp_Nd in Hin as (k & v & Hkv & Hin).
+    rewrite Forall_forall in IHc. destruct (IHc (k, v) Hkv _ _ Hin) as [p' Hp'].
+    exists (k :: p'). rewrite Hp', <- app_assoc. reflexivity.
+Qed.
+
+Lemma dict_to_paths_get_aux (d : tree) : wf d -> forall root p a,
+  In (root ++ p, a) (dict_to_paths root d) <-> get_in d p = Ok (Some (Lf a)).
+Proof.
+  induction d as [b|c IHc] using tree_ind'; intros Hwf root p a.
+  - cbn [dict_to_paths In]. split.
+    + intros [Heq|[]]. injection Heq as Hr ->.
+      rewrite <- (app_nil_r root) in Hr at 1. apply app_inv_head in Hr. subst p. reflexivity.
+    + destruct p as [|h r]; cbn; [|discriminate]. intros [= ->]. left. now rewrite app_nil_r.
+  - inversion Hwf as [|c' Hnd Hall]; subst. rewrite Forall_forall in IHc, Hall.
+    rewrite In_dtp_Nd. split.
+    + intros (k & v & Hkv & Hin).
+      destruct (dtp_prefix _ _ _ Hin) as [p' Hp']. cbn [fst] in Hp'.
+      rewrite <- app_assoc in Hp'. apply app_inv_head in Hp'. subst p.
+      cbn [app get_in]. rewrite (In_alookup k v c Hnd Hkv).
+      apply (IHc (k, v) Hkv (Hall (k, v) Hkv) (root ++ [k])).
+      rewrite <- app_assoc. exact Hin.
+    + destruct p as [|k p']; [discriminate|]. cbn [get_in].
+      destruct (alookup k c) as [v|] eqn:El; [|discriminate].
+      apply alookup_In in El. intros Hg. exists k, v. split; auto.
+      apply (IHc (k, v) El (Hall (k, v) El) (root ++ [k])) in Hg.
+      rewrite <- app_assoc in Hg. exact Hg.
+Qed.
+
+Theorem dict_to_paths_get (d : tree) root p a : wf d ->
+  (In (root ++ p, a) (dict_to_paths root d) <-> get_in d p = Ok (Some (Lf a))).
+Proof. intros Hwf. now apply dict_to_paths_get_aux. Qed.
+
+(* ---------- establish ---------- *)
+
+Lemma assoc_path_ok_get (p : list key) : forall (t t1 v : tree),
+  p <> [] -> assoc_path t p v = Ok t1 -> exists o, get_in t p = Ok o.
+Proof.
+  induction p as [|h r IH]; intros t t1 v Hne Ha; [congruence|].
+  destruct t as [a|c]; [rewrite assoc_path_Lf in Ha by exact Hne; discriminate|].
+  destruct r as [|h2 r].
+  - cbn. destruct (alookup h c); eauto.
+  - rewrite assoc_path_cons in Ha by discriminate.
+    destruct (assoc_path (adefault h c) (h2 :: r) v) as [s'|e] eqn:E; [|discriminate].
+    rewrite get_in_adefault by discriminate. eapply IH; [discriminate|exact E].
+Qed.
+
+(* inserting an empty dict at a missing path keeps every existing node, and every leaf as is *)
+Lemma assoc_missing_keeps (p : list key) : forall (t t1 : tree) q s,
+  p <> [] -> assoc_path t p (Nd []) = Ok t1 -> get_in t p = Ok None ->
+  get_in t q = Ok (Some s) ->
+  exists s1, get_in t1 q = Ok (Some s1) /\ (forall x, s = Lf x -> s1 = Lf x).
+Proof.
+  induction p as [|h r IH]; intros t t1 q s Hne Ha Hm Hq; [congruence|].
+  destruct t as [a|c]; [rewrite assoc_path_Lf in Ha by exact Hne; discriminate|].
+  destruct q as [|k q'].
+  { cbn in Hq. injection Hq as <-. exists t1. split; [reflexivity|discriminate]. }
+  cbn [get_in] in Hq. destruct (alookup k c) as [sk|] eqn:Ek; [|discriminate].
+  destruct r as [|h2 r].
+  - rewrite assoc_path_single in Ha. injection Ha as <-.
+    cbn in Hm. destruct (alookup h c) as [sh|] eqn:Eh; [discriminate|].
+    assert (Hhk : h <> k) by (intros ->; congruence).
+    exists s. split; [|auto]. rewrite get_in_aset_neq by exact Hhk. cbn [get_in]. now rewrite Ek.
+  - rewrite assoc_path_cons in Ha by discriminate.
+    destruct (assoc_path (adefault h c) (h2 :: r) (Nd [])) as [s'|e] eqn:E; [|discriminate].
+    injection Ha as <-.
+    destruct (N.eq_dec h k) as [->|Hhk].
+    + rewrite get_in_aset_eq.
+      rewrite get_in_adefault in Hm by discriminate.
+      unfold adefault in E, Hm. rewrite Ek in E, Hm.
+      eapply IH; [discriminate|exact E|exact Hm|exact Hq].
+    + exists s. split; [|auto]. rewrite get_in_aset_neq by exact Hhk. cbn [get_in]. now rewrite Ek.
+Qed.
+
+Lemma establish_step_missing (t t1 : tree) p :
+  p <> [] -> node_at t p = None -> assoc_path t p (Nd []) = Ok t1 -> get_in t p = Ok None.
+Proof.
+  intros Hne Hn Ha. destruct (assoc_path_ok_get p t t1 _ Hne Ha) as [o Ho].
+  unfold node_at in Hn. rewrite Ho in Hn. destruct o; [discriminate|exact Ho].
+Qed.
+
+Lemma snoc_not_nil (a : list key) k : a ++ [k] <> [].
+Proof. destruct a; discriminate. Qed.
+
+Theorem establish_reaches (t t' : tree) a r b : node_at t a <> None -> establish t a r = Ok (t', b) ->
+  node_at t' b <> None /\ normalize (dn a ++ r) = dn b.
+Proof.
+  intros Ha He.
+  assert (H : node_at t' b <> None /\ norm_go (rev (dn a)) r = rev (dn b)).
+  { revert t a Ha He. induction r as [|x r IH]; intros t a Ha He; cbn in He.
+    - injection He as <- <-. auto.
+    - destruct x as [|k].
+      + destruct a as [|x0 a0]; [discriminate|].
+        destruct (@removelast_snoc _ (x0 :: a0)) as [y Hy]; [discriminate|].
+        apply IH in He; [|now apply node_at_removelast].
+        destruct He as [H1 H2]. split; auto.
+        rewrite Hy at 1. rewrite rev_dn_snoc. cbn. exact H2.
+      + cbn [norm_go]. rewrite <- rev_dn_snoc.
+        destruct (node_at t (a ++ [k])) as [s|] eqn:E.
+        * apply IH in He; auto. rewrite E. discriminate.
+        * destruct (assoc_path t (a ++ [k]) (Nd [])) as [t1|e] eqn:Ea; [|discriminate].
+          apply IH in He; auto.
+          unfold node_at. rewrite (get_assoc _ _ _ _ (snoc_not_nil a k) Ea). discriminate. }
+  destruct H as [H1 H2]. split; auto.
+  rewrite normalize_dn_app, H2. apply rev_involutive.
+Qed.
+
+Lemma node_at_Some (t : tree) q s : node_at t q = Some s <-> get_in t q = Ok (Some s).
+Proof.
+  unfold node_at. destruct (get_in t q) as [[s0|]|e]; split; intros H; try discriminate; congruence.
+Qed.
+
+Theorem establish_keeps_leaves (t t' : tree) a r b q x : establish t a r = Ok (t', b) ->
+  node_at t q = Some (Lf x) -> node_at t' q = Some (Lf x).
+Proof.
+  revert t a. induction r as [|y r IH]; intros t a He Hq; cbn in He.
+  - injection He as <- <-. exact Hq.
+  - destruct y as [|k].
+    + destruct a as [|x0 a0]; [discriminate|]. eapply IH; eauto.
+    + destruct (node_at t (a ++ [k])) as [s|] eqn:E.
+      * eapply IH; eauto.
+      * destruct (assoc_path t (a ++ [k]) (Nd [])) as [t1|e] eqn:Ea; [|discriminate].
+        eapply IH; [exact He|].
+        apply node_at_Some in Hq.
+        destruct (assoc_missing_keeps _ _ _ _ _ (snoc_not_nil a k) Ea
+                    (establish_step_missing _ _ _ (snoc_not_nil a k) E Ea) Hq) as (s1 & Hs1 & Hlf).
+        apply node_at_Some. rewrite Hs1, (Hlf x eq_refl). reflexivity.
+Qed.
+
+Theorem establish_keeps_nodes (t t' : tree) a r b q s : establish t a r = Ok (t', b) ->
+  node_at t q = Some s -> node_at t' q <> None.
+Proof.
+  intros He Hq. assert (Hq' : node_at t q <> None) by (rewrite Hq; discriminate).
+  clear Hq. revert t a He Hq'. induction r as [|y r IH]; intros t a He Hq; cbn in He.
+  - injection He as <- <-. exact Hq.
+  - destruct y as [|k].
+    + destruct a as [|x0 a0]; [discriminate|]. eapply IH; eauto.
+    + destruct (node_at t (a ++ [k])) as [s0|] eqn:E.
+      * eapply IH; eauto.
+      * destruct (assoc_path t (a ++ [k]) (Nd [])) as [t1|e] eqn:Ea; [|discriminate].
+        eapply IH; [exact He|].
+        destruct (node_at t q) as [sq|] eqn:Eq; [|congruence].
+        apply node_at_Some in Eq.
+        destruct (assoc_missing_keeps _ _ _ _ _ (snoc_not_nil a k) Ea
+                    (establish_step_missing _ _ _ (snoc_not_nil a k) E Ea) Eq) as (s1 & Hs1 & _).
+        unfold node_at. rewrite Hs1. discriminate.
+Qed.
+
+End Paths.
+
+(* ================= Part 6: paths_to_dict (dict_to_paths d) = d, ordered ================= *)
+
+Section Inverse.
+Context {A : Type}.
+Notation tree := (tree A).
+
+Definition pfold (acc : res tree) (pl : list (list key * tree)) : res tree :=
+  fold_left (fun acc pv => rbind acc (fun d => assoc_path d (fst pv) (snd pv))) pl acc.
+
+Definition lpaths (root : list key) (v : tree) : list (list key * tree) :=
+  map (fun pa => (fst pa, Lf (snd pa))) (dict_to_paths root v).
+
+Lemma pfold_cons acc pv pl :
+  pfold acc (pv :: pl) = pfold (rbind acc (fun d => assoc_path d (fst pv) (snd pv))) pl.
+Proof. reflexivity. Qed.
+
+Lemma pfold_app acc l1 l2 : pfold acc (l1 ++ l2) = pfold (pfold acc l1) l2.
+Proof. apply fold_left_app. Qed.
+
+Lemma pfold_err e pl : pfold (Err e) pl = Err e.
+Proof. induction pl as [|pv pl IH]; [reflexivity|]. rewrite pfold_cons. exact IH. Qed.
+
+Lemma aset_absent {V} k (v : V) l : alookup k l = None -> aset k v l = l ++ [(k, v)].
+Proof.
+  induction l as [|[k0 v0] r IH]; cbn; auto.
+  destruct (N.eqb k0 k); [discriminate|]. intros H. f_equal. auto.
+Qed.
+
+Lemma aset_aset {V} k (s s' : V) l : aset k s (aset k s' l) = aset k s l.
+Proof.
+  induction l as [|[k0 v0] r IH]; cbn.
+  - now rewrite N.eqb_refl.
+  - destruct (N.eqb k0 k) eqn:E; cbn; rewrite E; [reflexivity|]. f_equal. exact IH.
+Qed.
+
+Lemma alookup_app_none {V} k (l m : alist V) : alookup k l = None -> alookup k (l ++ m) = alookup k m.
+Proof.
+  induction l as [|[k0 v0] r IH]; cbn; auto.
+  destruct (N.eqb k0 k); [discriminate|]. exact IH.
+Qed.
+
+Lemma dtp_cons (d : tree) : forall k root,
+  dict_to_paths (k :: root) d = map (fun pa => (k :: fst pa, snd pa)) (dict_to_paths root d).
+Proof.
+  induction d as [b|c IHc] using tree_ind'; intros k root.
+  - reflexivity.
+  - induction c as [|[k0 v0] r IHr].
+    + reflexivity.
+    + inversion IHc as [|kv l Hv Hr]; subst. cbn [snd] in Hv.
+      rewrite !dtp_Nd_cons, map_app, <- IHr by exact Hr.
+      f_equal. apply (Hv k (root ++ [k0])).
+Qed.
+
+Lemma lpaths_cons k root (v : tree) :
+  lpaths (k :: root) v = map (fun pv => (k :: fst pv, snd pv)) (lpaths root v).
+Proof. unfold lpaths. rewrite dtp_cons, !map_map. reflexivity. Qed.
+
+Lemma dtp_nonempty (d : tree) : no_empty d -> forall root, dict_to_paths root d <> [].
+Proof.
+  induction d as [b|c IHc] using tree_ind'; intros Hne root.
+  - discriminate.
+  - inversion Hne as [|c' Hc Hall]; subst.
+    destruct c as [|[k v] r]; [congruence|].
+    inversion IHc as [|kv l Hv Hr]; subst. inversion Hall as [|kv' l' Hnv Hnr]; subst.
+    cbn [snd] in Hv, Hnv. rewrite dtp_Nd_cons. intros Happ.
+    apply app_eq_nil in Happ as [H1 _]. exact (Hv Hnv _ H1).
+Qed.
+
+Lemma dtp_top_nonempty_paths (c : list (key * tree)) :
+  Forall (fun pv => fst pv <> []) (lpaths [] (Nd c)).
+Proof.
+  unfold lpaths. rewrite Forall_forall. intros pv Hin.
+  apply in_map_iff in Hin as (pa & <- & Hin). cbn [fst].
+  apply In_dtp_Nd in Hin as (k & v & _ & Hin).
+  destruct (dtp_prefix _ _ _ Hin) as [p Hp]. rewrite Hp. discriminate.
+Qed.
+
+Lemma pfold_cons_prefix pl : forall ac k,
+  pl <> [] -> Forall (fun pv : list key * tree => fst pv <> []) pl ->
+  pfold (Ok (Nd ac)) (map (fun pv => (k :: fst pv, snd pv)) pl) =
+  rbind (pfold (Ok (adefault k ac)) pl) (fun s => Ok (Nd (aset k s ac))).
+Proof.
+  induction pl as [|[p x] rest IH]; intros ac k Hne Hall; [congruence|].
+  inversion Hall as [|pv l Hp Hrest]; subst. cbn [fst] in Hp.
+  cbn [map]. rewrite !pfold_cons. cbn [fst snd rbind].
+  rewrite assoc_path_cons by exact Hp.
+  destruct (assoc_path (adefault k ac) p x) as [s'|e]; cbn [rbind].
+  - destruct rest as [|pv2 rest].
+    + reflexivity.
+    + rewrite IH by (auto; discriminate).
+      assert (Hd : adefault k (aset k s' ac) = s').
+      { unfold adefault. now rewrite alookup_aset_eq. }
+      rewrite Hd. destruct (pfold (Ok s') (pv2 :: rest)) as [s|e]; cbn [rbind]; auto.
+      now rewrite aset_aset.
+  - now rewrite !pfold_err.
+Qed.
+
+Definition rebuilds (v : tree) : Prop :=
+  wf v -> no_empty v -> forall k ac, alookup k ac = None ->
+  pfold (Ok (Nd ac)) (lpaths [k] v) = Ok (Nd (ac ++ [(k, v)])).
+
+Lemma rebuild_children (cv : list (key * tree)) :
+  Forall (fun kv => rebuilds (snd kv)) cv ->
+  NoDup (akeys cv) -> Forall (fun kv => wf (snd kv)) cv -> Forall (fun kv => no_empty (snd kv)) cv ->
+  forall ac, (forall k', In k' (akeys cv) -> alookup k' ac = None) ->
+  pfold (Ok (Nd ac)) (lpaths [] (Nd cv)) = Ok (Nd (ac ++ cv)).
+Proof.
+  induction cv as [|[k v] r IH]; intros HP Hnd Hwf Hne ac Hfresh.
+  - cbn. now rewrite app_nil_r.
+  - inversion HP as [|kv1 l1 HPv HPr]; subst. inversion Hnd as [|k1 l2 Hnin Hndr]; subst.
+    inversion Hwf as [|kv3 l3 Hwv Hwr]; subst. inversion Hne as [|kv4 l4 Hnv Hnr]; subst.
+    cbn [snd] in *.
+    unfold lpaths. rewrite dtp_Nd_cons, map_app. cbn [app].
+    rewrite pfold_app. fold (lpaths [k] v). fold (lpaths [] (Nd r)).
+    rewrite (HPv Hwv Hnv k ac) by (apply Hfresh; now left).
+    rewrite IH; auto.
+    + now rewrite <- app_assoc.
+    + intros k' Hin. rewrite alookup_app_none by (apply Hfresh; now right).
+      cbn. destruct (N.eqb k k') eqn:E; auto.
+      apply N.eqb_eq in E. subst k'. contradiction.
+Qed.
+
+Lemma rebuilds_all (v : tree) : rebuilds v.
+Proof.
+  induction v as [b|cv IHc] using tree_ind'; intros Hwf Hne k ac Hk.
+  - cbn. now rewrite aset_absent.
+  - inversion Hwf as [|c1 Hnd Hwc]; subst. inversion Hne as [|c2 Hcv Hnc]; subst.
+    rewrite lpaths_cons, pfold_cons_prefix.
+    + unfold adefault. rewrite Hk.
+      rewrite (rebuild_children cv IHc Hnd Hwc Hnc []) by reflexivity.
+      cbn [rbind app]. now rewrite aset_absent.
+    + unfold lpaths. intros Hnil. apply map_eq_nil in Hnil.
+      exact (dtp_nonempty (Nd cv) Hne [] Hnil).
+    + apply dtp_top_nonempty_paths.
+Qed.
+
+Theorem paths_dict_inverse (c : list (key * tree)) : wf (Nd c) -> Forall (fun kv => no_empty (snd kv)) c ->
+  paths_to_dict (map (fun pa => (fst pa, Lf (snd pa))) (dict_to_paths [] (Nd c))) = Ok (Nd c).
+Proof.
+  intros Hwf Hne. inversion Hwf as [|c1 Hnd Hwc]; subst.
+  change (pfold (Ok (Nd [])) (lpaths [] (Nd c)) = Ok (Nd ([] ++ c))).
+  apply rebuild_children; auto.
+  rewrite Forall_forall. intros kv _. apply rebuilds_all.
+Qed.
+
+End Inverse.
+
+Print Assumptions norm_go_app.
+Print Assumptions normalize_dn.
+Print Assumptions normalize_idem.
+Print Assumptions walk_is_lexical.
+Print Assumptions walk_above_root.
+Print Assumptions walk_reaches_node.
+Print Assumptions path_to_reaches.
+Print Assumptions path_for_reaches.
+Print Assumptions get_assoc.
+Print Assumptions assoc_frame.
+Print Assumptions delete_removes.
+Print Assumptions delete_frame.
+Print Assumptions delete_missing_noop.
+Print Assumptions update_in_get.
+Print Assumptions update_in_frame.
+Print Assumptions assoc_in_get.
+Print Assumptions assoc_in_frame.
+Print Assumptions dict_to_paths_get.
+Print Assumptions paths_dict_inverse.
+Print Assumptions establish_reaches.
+Print Assumptions establish_keeps_leaves.
+Print Assumptions establish_keeps_nodes.
